@@ -27,10 +27,10 @@ def programs(tier, seed):
     progs = list(core.all_progs(2, 2, first_defined=True))
     if tier != "thorough":
         progs = rng.sample(progs, 1500)
-    for _ in range(12000 if tier == "thorough" else 1500):
+    for _ in range(12000 if tier == "thorough" else 5000):
         s, c = rng.choice(core.SIZES[:-1])
         progs.append(core.rand_prog(rng, s, c, p_undef=rng.choice([0.0, 0.1, 0.3]), normal=rng.random() < 0.5))
-    stride = 997 if tier == "thorough" else 9973
+    stride = 997 if tier == "thorough" else 1499
     for (s, c) in ((3, 2), (2, 3)):
         progs += list(core.all_progs(s, c, first_defined=True, stride=stride, offset=seed % stride))
     named = core.named_progs()
